@@ -331,6 +331,11 @@ def run_case(case, stats):
                                 stats.c["calls_on_bare_cached_materialization"] += 1
                     if node[0] == "xfer":
                         dest = envx.engines[node[2]]
+                        if count_mats(res) < count_mats(ops[0]):
+                            raise Violation(
+                                "materialization-dropped",
+                                f"transferred_to() returned a tree with fewer materializations than its operand (a locked node was simplified away): {str(ops[0])[:200]} -> {str(res)[:200]}; call {what}",
+                            )
                         if res.engine is not dest:
                             raise Violation("transfer-wrong-engine", f"result lives in {res.engine}, requested {dest}; call {what}")
                         truth = memo[id(node)]
